@@ -706,6 +706,51 @@ static void run_ops(int T, prog_t * p, void ** exit_val) {
       r = myth_cond_signal(&obj_named(o->w[1])->u.c);
     } else if (!strcmp(op, "bcast")) {
       r = myth_cond_broadcast(&obj_named(o->w[1])->u.c);
+    } else if (!strcmp(op, "cdestroy")) {
+      /* cdestroy C / cinit C [attr] [dirty] (C05, object lifecycle): destroy / (re-)initialise condition variable C
+         through the public API, with attr == NULL or with a myth_condattr_t initialised by myth_condattr_init
+         (destroyed right after the call).  `dirty`: the object's memory is overwritten first (after destroy its
+         contents are indeterminate: init must set every field).  The caller guarantees that no thread is blocked on
+         C (released waiters that have not yet resumed are allowed). */
+      r = myth_cond_destroy(&obj_named(o->w[1])->u.c);
+    } else if (!strcmp(op, "cinit")) {
+      obj_t * c = obj_named(o->w[1]);
+      if (has(o, "dirty")) memset(&c->u.c, 0x5a, sizeof(c->u.c));
+      if (has(o, "attr")) {
+        myth_condattr_t a; memset(&a, 0x5a, sizeof(a));
+        myth_condattr_init(&a);
+        r = myth_cond_init(&c->u.c, &a);
+        myth_condattr_destroy(&a);
+      } else {
+        r = myth_cond_init(&c->u.c, 0);
+      }
+      sprintf(ex, "qempty=%d", c->u.c.sleep_q->head == 0 && c->u.c.sleep_q->tail == 0);
+    } else if (!strcmp(op, "mdestroy")) {
+      /* mdestroy M (C04, object lifecycle): myth_mutex_destroy(M); afterwards the memory belongs to the program
+         again and is overwritten with a 0x5a pattern.  The caller guarantees that M is free and nobody is inside
+         or entering an operation on it. */
+      obj_t * m = obj_named(o->w[1]); r = myth_mutex_destroy(&m->u.m);
+      memset(&m->u.m, 0x5a, sizeof(m->u.m));
+    } else if (!strcmp(op, "minit")) {
+      /* minit M [attr|static] : (re-)initialise mutex M through the public API, with attr == NULL, with a
+         myth_mutexattr_t initialised by myth_mutexattr_init (destroyed right after the call), or (static) by
+         assigning the static initialiser MYTH_MUTEX_INITIALIZER.  The R line carries the state word and the
+         number of queued threads right after the initialisation. */
+      obj_t * m = obj_named(o->w[1]);
+      if (has(o, "attr")) {
+        myth_mutexattr_t a; memset(&a, 0x5a, sizeof(a));
+        myth_mutexattr_init(&a);
+        r = myth_mutex_init(&m->u.m, &a);
+        myth_mutexattr_destroy(&a);
+      } else if (has(o, "static")) {
+        myth_mutex_t fresh = MYTH_MUTEX_INITIALIZER;
+        memcpy(&m->u.m, &fresh, sizeof(fresh)); r = 0;
+      } else {
+        r = myth_mutex_init(&m->u.m, 0);
+      }
+      m->occ = 0;
+      { long qn = 0; for (myth_sleep_queue_item_t q = m->u.m.sleep_q->head; q && qn < 1000; q = q->next) qn++;
+        sprintf(ex, "state=%ld qn=%ld", (long)m->u.m.state, qn); }
     } else if (!strcmp(op, "bwait")) {
       r = myth_barrier_wait(&obj_named(o->w[1])->u.b);
     } else if (!strcmp(op, "bdestroy")) {
